@@ -216,6 +216,12 @@ fn duration_cases(rng: &mut Rng, tu: &TimeUnits, n_random: usize) -> Vec<MCase> 
     for (y, t) in [("-5", "-5"), ("1.5e400", "1.5e400 (yaml)"), ("[1, 2]", "[1, 2] (yaml)"), ("true", "true (yaml)"), ("~", "null (yaml)"), ("4294967296", "4294967296"), ("-0.5", "-0.5 (yaml)")] {
         push("time", t.to_string(), Some(y.to_string()), Exp::Refuse, "outside_duration_yaml");
     }
+    // `prep time` / `cook time` are plain durations: the mapping form belongs to `time` only
+    for key in ["prep time", "cook time"] {
+        for (y, t) in [("{prep: 10 min, cook: 1h}", "{prep: 10 min, cook: 1h} (yaml)"), ("{prep: 10 min}", "{prep: 10 min} (yaml)"), ("[1, 2]", "[1, 2] (yaml)"), ("true", "true (yaml)"), ("-5", "-5")] {
+            push(key, t.to_string(), Some(y.to_string()), Exp::Refuse, "outside_duration_yaml");
+        }
+    }
     v
 }
 
@@ -236,7 +242,7 @@ fn other_cases() -> Vec<MCase> {
     for (t, y) in [("2|2", None), ("2|4|2", None), ("[3, 3] (yaml)", Some("[3, 3]")), ("[3, '3 x'] (yaml)", Some("[3, '3 x']"))] {
         push("servings", t, y, Exp::Refuse, "servings_duplicates");
     }
-    for (t, y) in [("many", None), ("-2", None), ("x2", None), ("2||3", None), ("4294967296", None), ("4294967296", Some("4294967296")), ("-2", Some("-2")), ("2.5 (yaml)", Some("2.5")), ("{a: 1} (yaml)", Some("{a: 1}")), ("[1, [2]] (yaml)", Some("[1, [2]]")), ("[1, true] (yaml)", Some("[1, true]")), ("|2", None), ("two", None)] {
+    for (t, y) in [("many", None), ("-2", None), ("x2", None), ("2||3", None), ("4294967296", None), ("4294967296", Some("4294967296")), ("-2", Some("-2")), ("2.5 (yaml)", Some("2.5")), ("{a: 1} (yaml)", Some("{a: 1}")), ("[1, [2]] (yaml)", Some("[1, [2]]")), ("[1, true] (yaml)", Some("[1, true]")), ("|2", None), ("two", None), ("[2.5, 5] (yaml)", Some("[2.5, 5]")), ("[4, 1e1] (yaml)", Some("[4, 1e1]")), ("[1.0, 2] (yaml)", Some("[1.0, 2]")), ("[2, -3] (yaml)", Some("[2, -3]")), ("[2, 4294967296] (yaml)", Some("[2, 4294967296]"))] {
         push("servings", t, y, Exp::Refuse, "outside_servings");
     }
     // tags
